@@ -59,4 +59,30 @@ theorem C10_offer_and_ack_carry_lease_time {cfg req ids st r st'}
 
 example : clamp 0 300 86400 = 300 ∧ clamp 900 300 86400 = 900 ∧ clamp (3 * 40000) 300 86400 = 86400 := by decide
 
+/-- **C10 (bounds, with the rule that an existing lease is never shortened).** The duration `allocate_address`
+    records and advertises — the clamped duration, raised to what is left of the lease the client already has for the
+    address, capped by the maximum in force — lies within the bounds, whatever was left. -/
+theorem C10_lease_bounds (d lo hi rem : Nat) (h : lo ≤ hi) :
+    lo ≤ leaseFor d lo hi rem ∧ leaseFor d lo hi rem ≤ hi := by
+  unfold leaseFor clamp; omega
+
+/-- **C10/C01 (what was acknowledged is not undercut).** If what is left of the client's lease is within the maximum
+    in force (always, unless the configured maximum was lowered meanwhile), the new record ends no earlier than the
+    old one: a later reply to the same client — an offer it need not take up, an early renewal — never moves the
+    end of its lease earlier. -/
+theorem C10_never_shortens (d lo hi rem : Nat) (h : rem ≤ hi) : rem ≤ leaseFor d lo hi rem := by
+  unfold leaseFor clamp; omega
+
+/-- in store terms: after the grant the row of the address ends no earlier than the client's previous row did -/
+theorem C10_record_end_monotone (s : Store) (c : Client) (x now' d lo hi : Nat) (opts : List Nat) (r : Row)
+    (hr : rowOf s x = some r) (hc : r.client = c) (hrem : r.expiry - now' ≤ hi) (hnow : now' ≤ r.expiry) :
+    r.expiry ≤ (grantRow c x now' (leaseFor d lo hi (remainingOf s c x now')) opts).expiry := by
+  have hrm : remainingOf s c x now' = r.expiry - now' := by
+    unfold remainingOf; rw [hr]; simp [hc]
+  have := C10_never_shortens d lo hi (r.expiry - now') hrem
+  rw [hrm]; simp only [grantRow]; omega
+
+example : leaseFor 0 300 86400 600 = 600 ∧ leaseFor 0 300 86400 0 = 300 ∧ leaseFor 900 300 86400 100 = 900 ∧
+    leaseFor 0 300 86400 100000 = 86400 := by decide
+
 end Erbium.Props.C10
